@@ -146,6 +146,8 @@ def sources_violation(case, r):
 
 
 def real(case):      # noqa: F811
+    if case['kind'] == 'feedback':
+        return muxprop.feedback_real(case)
     if case['kind'] == 'sources':
         import muxreal
         return muxprop.quiet(muxreal.run_sources, case['pipes'], case['sched'])
@@ -165,6 +167,8 @@ def compare(case, r, m):      # noqa: F811
 
 
 def shrink_candidates(case):      # noqa: F811
+    if case['kind'] == 'feedback':
+        return
     if case['kind'] == 'sources':
         for j, st in enumerate(case['sched']):
             if st[0] == 'push':
@@ -300,11 +304,16 @@ def cases(tier, rng):
     pr = rng.sub('resubscription')
     for c in _sources_cases(tier, rng.sub('sources')):
         yield c
+    # feedback loops: the output determined by a follow-up item pushed from inside an on_next comes out while THAT push is in progress
+    for c in muxprop.feedback_cases(tier, rng.sub('feedback'), plain_share=0.3):
+        yield c
     for c in muxprop.with_preludes(_cases(tier, rng), pr):
         yield c
 
 
 def oracle(case, r):
+    if case['kind'] == 'feedback':
+        return muxprop.feedback_violation(case, r)
     if case['kind'] == 'sources':
         return sources_violation(case, r)
     v = muxprop.prelude_violation(case, r)
